@@ -18,7 +18,7 @@ import (
 
 func die(format string, a ...any) {
 	fmt.Fprintf(os.Stderr, "pgverif: "+format+"\n", a...)
-	os.Exit(2)
+	os.Exit(3) // distinct from the exit status of a Go panic (2): the orchestrator must not take it for a crash of the server
 }
 
 func main() {
@@ -323,6 +323,7 @@ func cmdSegPlay(args []string) {
 		}
 		raw, _ := json.Marshal(b)
 		var all []run.M
+		var input0 []uint64
 		for mode := 0; mode <= 4; mode++ {
 			var bb run.M
 			json.Unmarshal(raw, &bb) //nolint: a fresh copy: concretisation enriches the behaviour
@@ -330,6 +331,23 @@ func cmdSegPlay(args []string) {
 			evs, err := run.PlayMode(bb, rng, run.Projections[*proj], mode)
 			if err != nil {
 				die("behaviour %d: %v", i, err)
+			}
+			samePrefix := func(a, b []uint64) bool { // the message-by-message run stops sending once the server has closed
+				if len(a) > len(b) {
+					return false
+				}
+				for k := range a {
+					if a[k] != b[k] {
+						return false
+					}
+				}
+				return true
+			}
+			if mode == 0 {
+				input0 = append([]uint64{}, run.LastInputs...)
+			} else if !samePrefix(input0, run.LastInputs) {
+				// not a property of the library: the harness sent different bytes under this segmentation
+				die("behaviour %d: segmentation %d was concretised to a different byte stream than the message-by-message run", i, mode)
 			}
 			if mode > 0 {
 				// the session came up message by message but not under this segmentation: that IS the violation
